@@ -10,6 +10,30 @@ var Metas = map[string]Meta{
 		Technique: "symbolic execution of go/ssa + SMT (QF_BV) query per assertion; native replay of models",
 		Design:    "DESIGN.md §4 C06",
 	},
+	"C03": {
+		Text:      "The real dequeue loop of act.Actor runs symbolically over the four real MPSC queues holding M messages under a symbolic class assignment (urgent/system/main/log) and message kind; the handling order is compared with the stable sort by class for every assignment. (Per-producer FIFO of the lock-free queue under concurrent pushes and the priority->queue mapping for every priority value are added by further entries as they are built; the evidence file lists the entries actually run.)",
+		Note:      bmcNote,
+		Technique: "symbolic execution of go/ssa + SMT feasibility/assertion queries; native replay",
+		Design:    "DESIGN.md §4 C03",
+	},
+	"C04": {
+		Text:      "Real process API (Link/Unlink/Monitor/Demonitor for pid, registered name, alias, event), real Route* functions and the real default target manager run symbolically over every history of <=4 requests by two consumers, followed by every way the target can go away (process termination via the real unregisterProcess, UnregisterName, DeleteAlias, UnregisterEvent); the consumers' real mailboxes are then inspected: exactly one exit/down per relation held, with the reason, nothing otherwise, and no relation left behind.",
+		Note:      bmcNote + " Sequential histories only in this entry; the request-vs-termination race is the subject of the concurrency entries when present in the evidence.",
+		Technique: "symbolic execution of go/ssa over symbolic operation histories + SMT; native replay",
+		Design:    "DESIGN.md §4 C04",
+	},
+	"C05": {
+		Text:      "act.Actor.ProcessRun is executed symbolically for every exit-signal kind x trap flag x sender (parent or not) x reason class, and for a handler returning an error at a symbolic position: termination reason, trapped-signal re-dispatch and 'nothing handled afterwards' are asserted on every path. (The concurrent half - causes racing on the process state word - is added by the concurrency entries when present in the evidence.)",
+		Note:      bmcNote,
+		Technique: "symbolic execution of go/ssa + SMT; native replay",
+		Design:    "DESIGN.md §4 C05",
+	},
+	"C19": {
+		Text:      "The real Pool.ProcessRun and Pool.forward run symbolically on a fake gen.Process whose Forward returns, per attempt, a symbolic outcome (delivered, unknown, terminated, mailbox full; dead workers stay dead): exactly one hand-over of the very same message object, full workers skipped, dead workers replaced on the spot with LinkParent, ring size kept, drop only when all are full. Bounded: pool <=3, <=3 messages.",
+		Note:      bmcNote,
+		Technique: "symbolic execution of go/ssa with nondeterministic environment stubs + SMT; native replay",
+		Design:    "DESIGN.md §4 C19",
+	},
 	"C08": {
 		Text:      "The real act.Supervisor (ProcessInit, ProcessRun, handleAction, supOFO/supARFO state machines) runs on a fake gen.Process inside the symbolic executor; the history of child exits (which child, which reason, optional death during the stopping phase, symbolic Significant flags) is explored path-wise with solver-decided feasibility for all 18 (type x strategy x KeepOrder) and 12 (type x strategy x auto-shutdown) configurations; assertions are the clauses of the property (restart scope and order, view consistency, significant/auto-shutdown termination). Bounded: <=3 children, <=4 events.",
 		Note:      bmcNote + " Children are modelled by the fake process: a child that is sent an exit eventually exits with that reason.",
